@@ -89,6 +89,12 @@ impl<'a> G<'a> {
         }
     }
     fn num(&mut self, d: u32) -> String {
+        // the forms without an argument read the context node (the root of DOC, or a node a predicate walks over)
+        if self.g.chance(1, 12) {
+            self.lab("context-node-form".into());
+            const FORMS: &[&str] = &["string-length()", "number()", "string-length(/a/b)", "count(/a/b[string-length() = 2])", "count(//b[string-length() = 3])", "count(//*[number() = 12])", "string-length(normalize-space())", "count(//text()[string-length() > 3])"];
+            return FORMS[self.g.pick(FORMS.len())].to_string();
+        }
         if d == 0 || self.g.chance(2, 5) {
             let (s, c) = NUMS[self.g.pick(NUMS.len())];
             self.lab(format!("num:{}", c));
@@ -152,6 +158,11 @@ impl<'a> G<'a> {
         (format!("'{}{}{}{}{}'", pre, partial, needle, post, again), format!("'{}'", needle))
     }
     fn string(&mut self, d: u32) -> String {
+        if self.g.chance(1, 12) {
+            self.lab("context-node-form".into());
+            const FORMS: &[&str] = &["string()", "normalize-space()", "name()", "local-name()", "string(/a/b)", "normalize-space(/a)", "name(/*)", "string(/a/b[string-length() = 3])", "string(//b[normalize-space() = 'x y'])", "name(//*[string() = 'xyz'])"];
+            return FORMS[self.g.pick(FORMS.len())].to_string();
+        }
         if d == 0 || self.g.chance(2, 5) {
             let (s, c) = STRS[self.g.pick(STRS.len())];
             self.lab(format!("str:{}", c));
@@ -272,6 +283,19 @@ pub fn scalar_case(genes: Vec<u16>, ty: usize, depth: u32) -> Json {
     };
     let mut b = vp_xref::TreeBuilder::new();
     b.start_element(None, "a", &[], &[]);
+    b.text(" \u{65e5}\u{672c}\u{8a9e} ");
+    b.start_element(None, "b", &[], &[]);
+    b.text("\u{e9}\u{1F600}");
+    b.end_element();
+    b.start_element(None, "b", &[], &[]);
+    b.text("xyz");
+    b.end_element();
+    b.start_element(None, "b", &[], &[]);
+    b.text(" x  y ");
+    b.end_element();
+    b.start_element(None, "c", &[], &[]);
+    b.text("12");
+    b.end_element();
     b.end_element();
     let tree = b.finish();
     let ns: Vec<(String, String)> = vec![];
@@ -289,7 +313,7 @@ pub fn scalar_case(genes: Vec<u16>, ty: usize, depth: u32) -> Json {
     let mut feats = vec![];
     c05::features(&ast, &mut feats);
     json!({
-        "doc": "<a/>",
+        "doc": vp_xref::to_xml(&tree),
         "tree": xjson::tree_to_json(&tree),
         "expr": expr,
         "ns": [],
